@@ -58,7 +58,7 @@ func drawC18(rt *rapid.T) C18Spec {
 	s := C18Spec{LibSeed: rapid.Uint64().Draw(rt, "libseed"), ValSeed: rapid.Uint64().Draw(rt, "valseed")}
 	s.Scenario = rapid.SampledFrom([]int{0, 1, 1, 2, 2, 2, 3, 4}).Draw(rt, "scenario")
 	s.Key = rapid.SampledFrom(append(kernel.KeyNames(1024), kernel.KeyNames(2048)...)).Draw(rt, "key")
-	s.NBases = rapid.IntRange(0, 8).Draw(rt, "nbases")
+	s.NBases = rapid.IntRange(0, 20).Draw(rt, "nbases")
 	s.WithRev = rapid.Bool().Draw(rt, "withrev")
 	s.Umask = rapid.SampledFrom([]int{0, 0o022, 0o077, 0o027, 0o002}).Draw(rt, "umask")
 	s.Prior = rapid.IntRange(0, 5).Draw(rt, "prior")
@@ -93,7 +93,11 @@ func (f *failingWriter) Write(p []byte) (int, error) {
 func variantKey(k *kernel.Key, nbases int, withRev bool) (*gabikeys.PrivateKey, *gabikeys.PublicKey) {
 	pk := *k.Pk
 	sk := *k.Sk
-	pk.R = append(gabikeys.Bases{}, k.Pk.R[:nbases]...)
+	pk.R = append(gabikeys.Bases{}, k.Pk.R[:min(nbases, len(k.Pk.R))]...)
+	for i := len(pk.R); i < nbases; i++ {
+		// further bases for the document round trip: distinct quadratic residues S^(i+2)
+		pk.R = append(pk.R, new(big.Int).Exp(k.Pk.S, big.NewInt(int64(i+2)), k.Pk.N))
+	}
 	if !withRev {
 		pk.G, pk.H, pk.ECDSA, pk.ECDSAString = nil, nil, nil, ""
 		sk.ECDSA, sk.ECDSAString = nil, ""
